@@ -17,6 +17,7 @@ import re
 
 from .v1_0.lang import parser as parser_v1_0
 from .v2_x.lang import parser as parser_v2_x
+from .v2_x.lang.utils import scan_colang_line
 
 log = logging.getLogger(__name__)
 
@@ -84,12 +85,15 @@ def _is_colang_v2(content):
         bool: True if the content is likely a Colang 2.x file, False otherwise.
     """
 
-    # Remove content within triple quotes
-    content = re.sub(r'""".*?"""', "", content, flags=re.DOTALL)
-    # Remove content after #
-    content = re.sub(r"#.*$", "", content, flags=re.MULTILINE)
+    # Remove content within triple quotes and content after #
+    # (in one pass: a comment can contain triple quotes and a docstring can contain a #)
+    lines = []
+    in_docstring = False
+    for line in content.split("\n"):
+        code, _has_docstring, in_docstring = scan_colang_line(line, in_docstring)
+        lines.append(code)
+    content = "\n".join(lines)
     # Check for v1 keyword at the beginning of a line
-    lines = content.split("\n")
     if any(re.match(r"^\s*define", line) for line in lines):
         return False
     # Check for v2 keyword
